@@ -12,6 +12,10 @@ far end; (3) max probe depth for length N exceeds the depth of the same shape at
 most 5 frames (stack use must not grow with N); (4) the probe ran exactly the expected number of
 times.
 
+Chain links may be instances of Deferred subclasses (trivial, overriding pause/unpause/callback via
+super(), DeferredList/gatherResults aggregates fired through their single source): the statement
+says "each Deferred", not "each instance of exactly Deferred".
+
 Guards: chainDeferred chains are excluded (its docstring says it can exhaust the stack); user
 callbacks never fire other Deferreds themselves (that recursion would be the user's); depth is
 compared only between runs of the same shape, so constant per-shape overhead is irrelevant.
@@ -29,7 +33,9 @@ RULE = ("scenario = (shape, firing order / variant, result kind, N): chain shape
         "{success, failure via errbacks, mixed via addBoth alternating}, one Deferred with N callbacks each "
         "returning a fired / later-fired Deferred, inlineCallbacks generators and ensureDeferred coroutines "
         "over N pre-fired Deferreds (success / failure caught), generator with an unfired Deferred every "
-        "1000th yield (the rest resolve synchronously inside the resumption), nested inlineCallbacks; N in "
+        "1000th yield (the rest resolve synchronously inside the resumption), nested inlineCallbacks; every chain shape again with all / every 3rd / a random half of the links "
+        "being instances of a trivial Deferred subclass, of a subclass overriding pause/unpause/callback/"
+        "errback via super(), or DeferredList/gatherResults aggregates over one source; N in "
         "{1e3, 1e4} (+1e5 for seven shapes) quick, 1e5 for all thorough.  A case is distinct by that tuple and "
         "is non-trivial when N >= 1000 (longer than the recursion limit could hide).")
 ASSUMPTIONS = [
@@ -38,8 +44,8 @@ ASSUMPTIONS = [
     "depth is sampled in 1 of 97 probe calls and in the last call, not in every call",
 ]
 SHARDS = {"quick": 4, "thorough": 16}
-FLOORS = {"scenarios_completed": 20, "depth_comparisons": 20, "probe_calls": 100000, "depth_samples": 100,
-          "results_checked": 20}
+FLOORS = {"scenarios_completed": 100, "depth_comparisons": 100, "probe_calls": 500000, "depth_samples": 1000,
+          "results_checked": 200, "subclass_link_scenarios": 80}
 READY = True
 
 BASE_N = 100
@@ -76,11 +82,78 @@ class _Val:
 # ------------------------------------------------------------------------------------------------
 # scenarios: each returns (observed final results list, expected object, expected probe calls)
 # ------------------------------------------------------------------------------------------------
-def chain(n, order, kind, probe, paused=None, pause_after=False):
-    """d_i's callback (errback for failures) returns d_{i+1}; a probe callback follows it."""
-    from twisted.internet.defer import Deferred
+_CLS = {}
 
-    ds = [Deferred() for _ in range(n)]
+
+def _classes():
+    """Deferred subclasses used as chain links (defined lazily: twisted is imported by run())."""
+    if not _CLS:
+        from twisted.internet.defer import Deferred
+
+        class MyDeferred(Deferred):
+            pass
+
+        class OverridingDeferred(Deferred):
+            def pause(self):
+                return super().pause()
+
+            def unpause(self):
+                return super().unpause()
+
+            def callback(self, result):
+                return super().callback(result)
+
+            def errback(self, fail=None):
+                return super().errback(fail)
+
+        _CLS.update(trivial=MyDeferred, overriding=OverridingDeferred)
+    return _CLS
+
+
+def make_links(n, kind, links, rng):
+    """Returns (ds, fire) - ds[i] is link i, fire[i](is_error, value) gives it its own result.
+
+    links = None | "<trivial|overriding|dlist>-<all|every3|rand>".  A "dlist" link is a DeferredList /
+    gatherResults aggregate over one source Deferred (fired through the source); the last link is
+    never an aggregate so that the injected object arrives unwrapped."""
+    from twisted.internet.defer import Deferred, DeferredList, gatherResults
+
+    ds, fire = [], []
+    cls, pattern = links.split("-") if links else (None, None)
+
+    def plain_fire(d):
+        def f(is_err, v):
+            if is_err:
+                d.errback(v)
+            else:
+                d.callback(v)
+        return f
+
+    for i in range(n):
+        special = cls is not None and (pattern == "all" or (pattern == "every3" and i % 3 == 1)
+                                       or (pattern == "rand" and rng.random() < 0.5))
+        if not special or (cls == "dlist" and i == n - 1):
+            d = Deferred()
+            ds.append(d)
+            fire.append(plain_fire(d))
+        elif cls == "dlist":
+            src = Deferred()
+            if kind == "s" and i % 2 == 0:
+                d = DeferredList([src])
+            else:
+                d = gatherResults([src], consumeErrors=True)
+            ds.append(d)
+            fire.append(plain_fire(src))
+        else:
+            d = _classes()[cls]()
+            ds.append(d)
+            fire.append(plain_fire(d))
+    return ds, fire
+
+
+def chain(n, order, kind, probe, paused=None, pause_after=False, links=None, rng=None):
+    """d_i's callback (errback for failures) returns d_{i+1}; a probe callback follows it."""
+    ds, firefn = make_links(n, kind, links, rng)
     out = []
     final = _E("final") if kind != "s" else _Val()
 
@@ -110,14 +183,11 @@ def chain(n, order, kind, probe, paused=None, pause_after=False):
 
     def fire(i):
         if i == n - 1:
-            if kind == "s":
-                ds[i].callback(final)
-            else:
-                ds[i].errback(final)
+            firefn[i](kind != "s", final)
         elif kind == "s" or (kind == "m" and i % 2 == 0):
-            ds[i].callback(i)
+            firefn[i](False, i)
         else:
-            ds[i].errback(_E(i))
+            firefn[i](True, _E(i))
 
     if paused and not pause_after:
         # paused before firing: d_i has a result but has not run its callback yet
@@ -141,10 +211,12 @@ def chain(n, order, kind, probe, paused=None, pause_after=False):
     return out, final, n
 
 
-def one_deferred_many_returns(n, variant, kind, probe):
+def one_deferred_many_returns(n, variant, kind, probe, links=None):
     """One Deferred, N callbacks each returning another Deferred (fired, or fired later by the driver)."""
     from twisted.internet.defer import Deferred, fail, succeed
 
+    if links:
+        Deferred = _classes()[links.split("-")[0]]  # noqa: F811 - the waiting and the returned Deferreds
     d = Deferred()
     out = []
     pending = []
@@ -279,6 +351,20 @@ def scenarios(ctx):
     out.append(("onedef", "fired", "s", 100000, None))
     out.append(("gen", "coroutine", "f", 100000, None))
     out.append(("gen", "nested", "s", 100000, None))
+    out = [s + (None,) for s in out]
+    # Deferred-subclass links: every chain shape x {trivial, overriding, DeferredList/gatherResults} x
+    # {all, every 3rd, random half}
+    big = 10000 if q else 100000
+    small = 2000 if q else 10000
+    shapes = [(order, kind, None) for order in ("outer-first", "inner-first", "reverse") for kind in ("s", "f", "m")]
+    shapes += [("outer-first", kind, "every7-" + when) for kind in ("s", "f") for when in ("before", "after")]
+    for order, kind, pausespec in shapes:
+        for cls in ("trivial", "overriding", "dlist"):
+            for pattern in ("all", "every3", "rand"):
+                out.append(("chain", order, kind, big if pattern == "all" else small, pausespec, cls + "-" + pattern))
+    for cls in ("trivial", "overriding"):
+        for variant in ("fired", "later"):
+            out.append(("onedef", variant, "s", small, None, cls + "-all"))
     seen, uniq = set(), []
     for s in out:
         if s not in seen:
@@ -288,7 +374,7 @@ def scenarios(ctx):
 
 
 def execute(ctx, sc, n):
-    shape, variant, kind, _, pausespec = sc
+    shape, variant, kind, _, pausespec, links = sc
     probe = Probe()
     if shape == "chain":
         paused = None
@@ -297,9 +383,10 @@ def execute(ctx, sc, n):
         elif pausespec:
             rng = ctx.case_rng("pause", pausespec, n)
             paused = sorted(rng.sample(range(1, n - 1), max(1, n // rng.choice((3, 10, 50)))))
-        res = chain(n, variant, kind, probe, paused, bool(pausespec) and pausespec.endswith("after"))
+        res = chain(n, variant, kind, probe, paused, bool(pausespec) and pausespec.endswith("after"),
+                    links, ctx.case_rng("links", links, n))
     elif shape == "onedef":
-        res = one_deferred_many_returns(n, variant, kind, probe)
+        res = one_deferred_many_returns(n, variant, kind, probe, links)
     else:
         res = gen_prefired(n, variant, kind, probe)
     return probe, res
@@ -355,7 +442,9 @@ def run_scenario(ctx, sc):
     ctx.maxi("depth_growth", depths[n] - depths[BASE_N])
     if n >= 1000:
         ctx.distinct(sc)
-    ctx.seen("shapes", "%s/%s/%s%s" % (sc[0], sc[1], sc[2], "/" + sc[4] if sc[4] else ""))
+    ctx.seen("shapes", "%s/%s/%s%s%s" % (sc[0], sc[1], sc[2], "/" + sc[4] if sc[4] else "", "/" + sc[5] if sc[5] else ""))
+    if sc[5]:
+        ctx.count("subclass_link_scenarios")
     ctx.sample({"scenario": list(sc), "depth_at_100": depths[BASE_N], "depth_at_N": depths[n]}, limit=6)
     if depths[n] - depths[BASE_N] > SLACK:
         ctx.violation("stack-grows-with-length", "frame depth inside user callbacks grows with the chain length",
@@ -373,7 +462,7 @@ def run(ctx):
         return
     scs = scenarios(ctx)
     # big scenarios first inside each shard would not matter; interleave by index for balance
-    scs.sort(key=lambda s: (-s[3], s[:3], s[4] or ""))
+    scs.sort(key=lambda s: (-s[3], s[:3], s[4] or "", s[5] or ""))
     for k, sc in enumerate(scs):
         if ctx.owns(k):
             run_scenario(ctx, sc)
@@ -384,4 +473,4 @@ def run(ctx):
 
 def replay(ctx, w):
     x = w["witness"]["scenario"]
-    run_scenario(ctx, (x[0], x[1], x[2], x[3], x[4]))
+    run_scenario(ctx, (x[0], x[1], x[2], x[3], x[4], x[5] if len(x) > 5 else None))
